@@ -34,8 +34,8 @@ def InvI (f : Fn) (x0 : Rat) (m : Nat) (pl : PL) : Prop :=
     (∀ b ∈ rest, b.1 < x0 + (m : Rat)) ∧ (rest = [] → m = 0) ∧
     ∀ j : Nat, j ≤ m → ∃ v, f.eval (x0 + (j : Rat)) = .fin v ∧ plEvalR pl (x0 + (j : Rat)) = v
 
-theorem invI_base (f : Fn) (x0 y : Rat) (h : f.eval (x0 + ((0 : Nat) : Rat)) = .fin y) :
-    InvI f x0 0 (addPoint (exactOps sq) [] (x0 + ((0 : Nat) : Rat)) y) := by
+theorem invI_base (o : FOps) (f : Fn) (x0 y : Rat) (h : f.eval (x0 + ((0 : Nat) : Rat)) = .fin y) :
+    InvI f x0 0 (addPoint o [] (x0 + ((0 : Nat) : Rat)) y) := by
   refine ⟨y, [], rfl, h, ?_, fun _ => rfl, ?_⟩
   · intro b hb; cases hb
   · intro j hj
@@ -43,17 +43,14 @@ theorem invI_base (f : Fn) (x0 y : Rat) (h : f.eval (x0 + ((0 : Nat) : Rat)) = .
     subst this
     exact ⟨y, h, rfl⟩
 
-theorem invI_step (sq : Rat → Rat) (f : Fn) (x0 : Rat) (m : Nat) (pl : PL) (y' : Rat)
+theorem invI_step (o : FOps) (f : Fn) (x0 : Rat) (m : Nat) (pl : PL) (y' : Rat)
+    (hcond : keepCond o (x0 + (m : Rat)) (x0 + ((m + 1 : Nat) : Rat)))
     (hi : InvI f x0 m pl) (he : f.eval (x0 + ((m + 1 : Nat) : Rat)) = .fin y') :
-    InvI f x0 (m + 1) (addPoint (exactOps sq) pl (x0 + ((m + 1 : Nat) : Rat)) y') := by
+    InvI f x0 (m + 1) (addPoint o pl (x0 + ((m + 1 : Nat) : Rat)) y') := by
   obtain ⟨y, rest, hpl, hy, hord, hsing, hall⟩ := hi
   subst hpl
   have hc := cast_succ m
   have hlt : x0 + (m : Rat) < x0 + ((m + 1 : Nat) : Rat) := by rw [hc]; grind
-  have hcond : keepCond (exactOps sq) (x0 + (m : Rat)) (x0 + ((m + 1 : Nat) : Rat)) := by
-    unfold keepCond
-    simp only [fadd, exactOps, id]
-    rw [hc]; have := eps4_lt_one; grind
   unfold addPoint
   simp only [if_pos hcond]
   match rest, hord, hsing, hall with
@@ -133,16 +130,30 @@ theorem invI_step (sq : Rat → Rat) (f : Fn) (x0 : Rat) (m : Nat) (pl : PL) (y'
             simp only [hnc, if_false]
             exact hv2
 
-theorem intPoints_invI (sq : Rat → Rat) (f : Fn) (x0 : Rat) : ∀ (n m : Nat) (pl r : PL), InvI f x0 m pl →
-    intPoints (exactOps sq) f x0 n (m + 1) pl = .ok r → InvI f x0 (m + n) r := by
+/-- exactness of the integer arithmetic and of the keep test on the points `x0, …, x0+B` -/
+structure IntOK (o : FOps) (x0 : Rat) (B : Nat) : Prop where
+  add : ∀ j : Nat, j ≤ B → fadd o x0 (j : Rat) = x0 + (j : Rat)
+  keep : ∀ j : Nat, j + 1 ≤ B → keepCond o (x0 + (j : Rat)) (x0 + ((j + 1 : Nat) : Rat))
+
+theorem intOK_exact (sq : Rat → Rat) (x0 : Rat) (B : Nat) : IntOK (exactOps sq) x0 B := by
+  constructor
+  · intro j _; rfl
+  · intro j _
+    unfold keepCond
+    simp only [fadd, exactOps, id]
+    rw [cast_succ]; have := eps4_lt_one; grind
+
+theorem intPoints_invI (o : FOps) (f : Fn) (x0 : Rat) (B : Nat) (hok : IntOK o x0 B) :
+    ∀ (n m : Nat) (pl r : PL), m + n ≤ B → InvI f x0 m pl →
+    intPoints o f x0 n (m + 1) pl = .ok r → InvI f x0 (m + n) r := by
   intro n
   induction n with
-  | zero => intro m pl r hi h; simp [intPoints] at h; have := pure_ok h; subst this; simpa using hi
+  | zero => intro m pl r _ hi h; simp [intPoints] at h; have := pure_ok h; subst this; simpa using hi
   | succ n ih =>
-    intro m pl r hi h
+    intro m pl r hB hi h
     unfold intPoints at h
     obtain ⟨y, hy, h⟩ := bind_ok h
-    have hx : fadd (exactOps sq) x0 ((m + 1 : Nat) : Rat) = x0 + ((m + 1 : Nat) : Rat) := rfl
+    have hx : fadd o x0 ((m + 1 : Nat) : Rat) = x0 + ((m + 1 : Nat) : Rat) := hok.add (m + 1) (by omega)
     rw [hx] at h hy
     have hev : f.eval (x0 + ((m + 1 : Nat) : Rat)) = .fin y := by
       unfold getFin at hy
@@ -150,7 +161,7 @@ theorem intPoints_invI (sq : Rat → Rat) (f : Fn) (x0 : Rat) : ∀ (n m : Nat) 
       · have := pure_ok hy; subst this; assumption
       · exact (throw_ne_ok hy).elim
       · exact (throw_ne_ok hy).elim
-    have := ih (m + 1) _ r (invI_step sq f x0 m pl y hi hev) h
+    have := ih (m + 1) _ r (by omega) (invI_step o f x0 m pl y (hok.keep m (by omega)) hi hev) h
     have e : m + 1 + n = m + (n + 1) := by omega
     rw [e] at this
     exact this
